@@ -407,3 +407,11 @@ package mapping
 //@   call Set#0: assert arg_x == m0
 //@   call Set#1: assert arg_x == m1
 //@   loop 0: invariant true
+
+// C08 strings are parsed at the width of the target kind (base 10): a value outside the field's type is an error, never a
+// silently truncated number
+//@ func convertTypeFromString
+//@   property C08
+//@   call ParseInt#*: assert arg_s == str && arg_base == 10 && ((kind == reflect.Int && arg_bitSize == intSize) || (kind == reflect.Int8 && arg_bitSize == 8) || (kind == reflect.Int16 && arg_bitSize == 16) || (kind == reflect.Int32 && arg_bitSize == 32) || (kind == reflect.Int64 && arg_bitSize == 64))
+//@   call ParseUint#*: assert arg_s == str && arg_base == 10 && ((kind == reflect.Uint && arg_bitSize == intSize) || (kind == reflect.Uint8 && arg_bitSize == 8) || (kind == reflect.Uint16 && arg_bitSize == 16) || (kind == reflect.Uint32 && arg_bitSize == 32) || (kind == reflect.Uint64 && arg_bitSize == 64))
+//@   call ParseFloat#*: assert arg_s == str && ((kind == reflect.Float32 && arg_bitSize == 32) || (kind == reflect.Float64 && arg_bitSize == 64))
